@@ -9,7 +9,14 @@ response finishes or the connection is lost, and for further ones from inside
 notification callbacks/errbacks (nesting depth up to 3): of the request that is
 unfinished at that moment, or of the very request whose Deferreds are being
 fired right now (a layered application whose "response is over" handler tears
-down an inner layer that registers its own notifyFinish() helper).  Requests are HTTP/1.1 or (a few)
+down an inner layer that registers its own notifyFinish() helper).  The application's
+request class (the channel's requestFactory) is of the upload-handler kind: it holds the Request
+object from the request line on, and in 35% of the requests it asks for notifyFinish() Deferreds
+EARLY - in its constructor (request line received), in gotLength() (headers received) and in
+handleContentChunk() (body bytes arriving) - i.e. before the request has been received completely;
+such a request may still be receiving its headers or body when the connection goes away (it never
+reaches process()): "the connection is lost first", every one of its Deferreds is owed a failure.
+Requests are HTTP/1.1 or (a few)
 HTTP/1.0 and may carry Connection tokens (close, keep-alive, any case, lists), so
 that the server itself ends the connection after some responses.  The transport
 has a small send buffer and the client reads at tape-chosen times (producer
@@ -34,7 +41,9 @@ responses; (2) the wire is the responses in request order, each body intact;
 (3) every notifyFinish Deferred fires exactly once: None at finish, a Failure at
 connection loss, never both, none left by the end - including every Deferred that
 was obtained while the Deferreds of its request were being fired (it belongs to a
-request whose response finishes / whose connection is lost in that very pass);
+request whose response finishes / whose connection is lost in that very pass), and
+every Deferred obtained early, also those of a request that was still being received
+when the connection was lost;
 (4) nothing reaches the transport after connectionLost.
 """
 import errno
@@ -67,13 +76,19 @@ RULE = ("run = 1-6 pipelined requests delivered in tape-chosen pieces, interleav
         "requests are HTTP/1.1 or (last: 15%, others: 3%) HTTP/1.0 and carry a Connection header (close / keep-alive in any case, comma lists) with "
         "p=0.25 (last) / 0.06 (others); in 25% of the runs the transport reports a loss synchronously from inside loseConnection()/abortConnection(); "
         "30% of the notification callbacks/errbacks ask for another notifyFinish() from inside the callback, and 45% of the callbacks of such Deferreds do so "
-        "again (nesting depth <= 3): of the request that is unfinished at that moment, else of the same request, i.e. while that request's Deferreds are "
+        "again (nesting depth <= 3); in 35% of the requests the application's request class asks for 0-2 further Deferreds at each of: its constructor, "
+        "gotLength(), the first 3 handleContentChunk() calls (request not yet completely received; loss while it is being received -> failure); nested: of the request that is unfinished at that moment, else of the same request, i.e. while that request's Deferreds are "
         "being fired because its response finished / its connection was lost (full verdict for both: fires exactly once, None / failure as the pass); "
         "chunked request bodies, and in 3% of the runs one body of 100000-100002 bytes with a Content-Length, live in a temporary file; in 30% of the runs "
         "the disk is failing: 60% of these files report an OSError (errno drawn from EIO/ENOSPC/EDQUOT/EACCES/EBADF/EINTR) from the close() that follows "
         "finish() of the request that owns them (same verdicts as without the fault; finish() must not raise); "
         "non-trivial = at least two requests reached the application, or one did and the connection was lost while its response was unfinished")
-ASSUMPTIONS = ["notifyFinish() is requested before the response finishes or the connection is lost, or WHILE the Deferreds of that request are being fired "
+ASSUMPTIONS = ["notifyFinish() may be requested from the moment the application holds the Request object: the application supplies requestFactory, so "
+               "that is from the constructor on (request line received), and the overridable hooks gotLength() / handleContentChunk() are what upload "
+               "handlers use before process().  A Deferred obtained there is a notifyFinish Deferred like any other: None when the response finishes, a "
+               "failure if the connection is lost first - also when it is lost while that request is still being received (verified on the unchanged "
+               "tree: HTTPChannel.connectionLost tells every Request object it holds).  No verdict on how many Request objects are created",
+               "notifyFinish() is requested before the response finishes or the connection is lost, or WHILE the Deferreds of that request are being fired "
                "(from inside a callback/errback of one of them, any nesting depth): such a Deferred is a notifyFinish Deferred of a request whose response "
                "finishes / whose connection is lost in that very pass, so it must fire exactly once with the outcome of the pass.  Verified on the "
                "unchanged tree for every path the workload reaches: finish() of a persistent request (next pipelined request handed over before the pass), "
@@ -87,6 +102,11 @@ ASSUMPTIONS = ["notifyFinish() is requested before the response finishes or the 
                "part of the statement: only requests that reached the application are judged",
                "the application does not call finish() on a request whose notifyFinish already failed (documented to raise); it may still call write()",
                "requests are well-formed (malformed input belongs to C19)",
+               "the application's hooks (constructor, gotLength, handleContentChunk, process) return normally: an application that raises is not in the "
+               "statement's universe (request sequences, response timing, pause/resume, loss points).  Observation, no verdict: HTTPChannel.requestDone "
+               "replays the buffered next request from inside Request._cleanup() of the finished one BEFORE that one's Deferreds are fired, so a "
+               "process() that raises for the pipelined next request propagates out of the previous request's finish() and the previous request's "
+               "notifyFinish Deferreds never fire (it has already left channel.requests, so a later connection loss does not reach it either)",
                "an OS error from closing the temporary file of a request body is an environment fault the notifyFinish clause is quantified over where the "
                "code under test itself treats it as survivable: Request._cleanup() (response finished) closes the file under `except OSError` before it "
                "fires the Deferreds, so 'fires with None when its response finishes' must hold under it.  The same error on the connection-loss path "
@@ -104,6 +124,8 @@ CLOSE_ERRNOS = ["EIO", "ENOSPC", "EDQUOT", "EACCES", "EBADF", "EINTR"]
 # share of the failing-disk runs in which a spool file's close() may ALSO fail on the connection-loss path (Request.connectionLost closes the
 # body file of an unfinished request).  That path had no `except OSError` before /repo 8d4e387 (fixed finding C21:connectionLost-raised:lose:OSError).
 CLOSE_FAULT_ON_LOSS_P = 0.7
+EARLY_P = 0.35   # share of the requests whose notifyFinish() Deferreds are (also) requested from the constructor / gotLength() / handleContentChunk()
+EARLY_CHUNKS = 3 # ... from at most this many handleContentChunk() calls per request
 NEST_MAX = 3     # a notification callback may ask for another notification, whose callback may again ... up to this depth
 PAYLOADS = [b"", b"hello", b"x" * 40, b"\r\n0\r\n\r\n", b"HTTP/1.1 200 OK\r\n\r\n", b"y" * 9]
 
@@ -113,11 +135,33 @@ class Rec:
 
     def __init__(self, idx):
         self.idx = idx
+        self.reached_app = False   # process() was called
+        self.early_chunks = 0
+        self.nearly = 0            # notifyFinish() Deferreds requested before process()
         self.finish_called = False
         self.finished = False      # finish() returned
         self.lost = False          # connection lost while unfinished
         self.notes = []            # one list of observed results per notifyFinish Deferred
         self.renotes = []          # same, for Deferreds requested from inside a notification callback/errback of this very request, i.e. while its Deferreds are being fired
+
+
+class AppRequest(H.RecRequest):
+    """The application's request class (what it installs as the channel's requestFactory).  Like an upload handler it overrides the hooks
+    that run before process(): the constructor (a request line has arrived), gotLength() (the headers are complete) and
+    handleContentChunk() (body bytes).  What it does there is the scenario's business (Server.early_hook)."""
+
+    def __init__(self, *args, **kwargs):
+        H.RecRequest.__init__(self, *args, **kwargs)
+        self._app_server = self.channel.factory._h_server
+        self._app_server.early_hook(self, "constructor")
+
+    def gotLength(self, length):
+        H.RecRequest.gotLength(self, length)
+        self._app_server.early_hook(self, "gotLength")
+
+    def handleContentChunk(self, data):
+        H.RecRequest.handleContentChunk(self, data)
+        self._app_server.early_hook(self, "handleContentChunk")
 
 
 def run(sim):
@@ -148,7 +192,7 @@ def run(sim):
         pieces = [sim.draw_choice(PAYLOADS, "payload") for _ in range(sim.draw_int(0, 4, "nwrites"))]
         explicit_cl = sim.draw_bool(0.3, "explicit-cl")
         late_note = sim.draw_bool(0.3, "late-notify")
-        plans.append({"beh": beh, "nnote": nnote, "pieces": pieces, "cl": explicit_cl, "late_note": late_note})
+        plans.append({"beh": beh, "nnote": nnote, "pieces": pieces, "cl": explicit_cl, "late_note": late_note, "early": False})
         http10 = sim.draw_bool(0.15 if last else 0.03, "http10")
         fr = sim.draw_choice(["none", "length"] if http10 else ["none", "length", "chunked"], "req-framing")
         body = sim.draw_choice([b"abc", b"", b"0123456789" * 3], "req-body")
@@ -178,11 +222,14 @@ def run(sim):
             w += b"\r\n"
         stream += w
         bounds.append(len(stream))
+        # the application asks for notifications of this request before it has been received completely (upload-handler hooks)
+        plans[i]["early"] = sim.draw_bool(EARLY_P, "early-notify")
     stream = bytes(stream)
     sim.config = {"nreq": nreq, "timeout": timeout, "hwm": hwm, "loss_at": loss_at, "sync_loss": sync_loss, "behaviours": [p["beh"] for p in plans],
                   "failing_disk": failing_disk, "close_fault_on_loss": bool(fault_on_loss), "big_upload": big_upload}
 
-    recs = []
+    all_recs = []        # one per Request object the application's request class has built (ordinal = index of the request on the connection)
+    recs = []            # those that reached process()
     active = []          # [rec, request, remaining writes, producer]
     state = {"lost": False, "timed_out": False}
     methods = []
@@ -265,6 +312,28 @@ def run(sim):
 
         d.addCallbacks(cb, eb)
 
+    def early_hook(req, where):
+        """A hook of the application's request class that runs before process(): the request is still being received."""
+        rec = getattr(req, "_c21_rec", None)
+        if rec is None:
+            rec = req._c21_rec = Rec(len(all_recs))
+            all_recs.append(rec)
+        plan = plans[rec.idx] if rec.idx < nreq else None
+        if plan is None or not plan["early"] or state["lost"] or rec.finish_called:
+            return          # (a request made after the loss / after finish() is outside the statement)
+        if where == "handleContentChunk":
+            rec.early_chunks += 1
+            if rec.early_chunks > EARLY_CHUNKS:
+                return
+        n = sim.draw_weighted([(0, 3), (1, 3), (2, 1)], "early-nnotify")
+        sim.event("early", rec.idx, where, n)
+        for _ in range(n):
+            sim.probe("notify_requested_in_%s" % where)
+            if any(r.finish_called and not r.finished for r in recs):
+                sim.probe("notify_requested_for_request_replayed_inside_finish_of_previous")
+            rec.nearly += 1
+            add_note(rec, req)
+
     def do_finish():
         rec, req, rest, prod = active.pop(0)
         if prod is not None:
@@ -276,6 +345,8 @@ def run(sim):
         with sim.guard("finish-raised", "finish"):
             req.finish()
         rec.finished = True
+        if rec.nearly:
+            sim.probe("notify_requested_before_process_fired_at_finish")
         sim.check("notify-on-finish", all(n == ["ok"] for n in rec.notes), "after-finish",
                   lambda: "request %d: finish() returned, notifyFinish results %r" % (rec.idx, rec.notes))
         # the pass that fires this request's Deferreds is over: whatever was requested while it ran has fired in it
@@ -294,7 +365,12 @@ def run(sim):
 
     def app(srv, req, idx):
         plan = plans[idx]
-        rec = Rec(idx)
+        rec = getattr(req, "_c21_rec", None)
+        if rec is None:
+            rec = req._c21_rec = Rec(idx)
+            all_recs.append(rec)
+        rec.idx = idx
+        rec.reached_app = True
         recs.append(rec)
         methods.append(req.method)
         sim.event("process", idx, plan["beh"])
@@ -334,15 +410,23 @@ def run(sim):
             app_step()
 
     srv = H.Server(sim, app, timeout=timeout, hwm=hwm, sync_loss=sync_loss)
+    srv.early_hook = early_hook
+    srv.proto.requestFactory = AppRequest
     # (a 100000-byte upload is not delivered byte by byte)
     pieces = net.cut(sim, stream, style=None if big_upload is None else sim.draw_choice(["whole", "one", "few", "edges"], "cutstyle-big"), boundaries=bounds)
     queue = list(pieces)
 
     def loss_begins():
         # rec.lost must be set before the errbacks run: the requests whose finish() has not been called are the interrupted ones
-        # (a request whose finish() is in progress or has returned is no longer in `active`)
-        for entry in active:
-            entry[0].lost = True
+        # (a request whose finish() is in progress or has returned is no longer in `active`); a request that is still being received
+        # (its Request object exists, process() has not been called) is interrupted as well
+        for rec in all_recs:
+            if not rec.finish_called:
+                rec.lost = True
+                if not rec.reached_app:
+                    sim.probe("lost_while_request_being_received")
+                    if rec.notes:
+                        sim.probe("lost_while_request_being_received_with_notification_pending")
         state["lost"] = True
 
     def sync_loss_begins():
@@ -366,10 +450,12 @@ def run(sim):
     def after_loss():
         state["loss_checked"] = True
         # (3) every Deferred of an unfinished request that reached the application failed, exactly once, right now
-        for rec in recs:
+        # (also of a request that was still being received: its Deferreds were obtained in the constructor / gotLength / handleContentChunk)
+        for rec in all_recs:
             if not rec.finished:
-                sim.check("notify-on-loss", all(n == ["err"] for n in rec.notes), "after-loss",
-                          lambda: "request %d unfinished at connection loss, notifyFinish results %r" % (rec.idx, rec.notes))
+                sim.check("notify-on-loss", all(n == ["err"] for n in rec.notes), "after-loss" if rec.reached_app else "request-being-received",
+                          lambda: "request %d %s at connection loss, notifyFinish results %r" % (
+                              rec.idx, "unfinished" if rec.reached_app else "still being received (notifyFinish() requested before process())", rec.notes))
                 sim.check("notify-on-loss", all(n == ["err"] for n in rec.renotes), "requested-during-notification",
                           lambda: "request %d unfinished at connection loss, results of notifyFinish() requested from inside its notification "
                                   "errbacks %r" % (rec.idx, rec.renotes))
@@ -444,10 +530,10 @@ def run(sim):
         return "behaviours=%r finished=%r wire=%r" % ([p["beh"] for p in plans], [r.finished for r in recs], wire)
 
     # (3) by the end of the run every Deferred fired exactly once, None iff the response finished first
-    for rec in recs:
+    for rec in all_recs:
         want = ["ok"] if rec.finished else ["err"]
-        sim.check("notify-count", all(n == want for n in rec.notes), "finished" if rec.finished else "lost",
-                  lambda: "request %d (finished=%s): notifyFinish results %r" % (rec.idx, rec.finished, rec.notes))
+        sim.check("notify-count", all(n == want for n in rec.notes), "finished" if rec.finished else "lost" if rec.reached_app else "lost-while-being-received",
+                  lambda: "request %d (finished=%s, reached process(): %s): notifyFinish results %r" % (rec.idx, rec.finished, rec.reached_app, rec.notes))
         # requested from inside a notification callback/errback of the same request (while its Deferreds were being fired): as above
         sim.check("notify-count", all(n == want for n in rec.renotes), "requested-during-notification",
                   lambda: "request %d (finished=%s): results of notifyFinish() requested from inside its own notification callbacks %r" % (rec.idx, rec.finished, rec.renotes))
@@ -491,4 +577,9 @@ MUTANTS = [
     'chunked / large upload: finish() raises into the application, the Deferreds never fire) -> finish-raised:finish:OSError (and :PermissionError, '
     ':InterruptedError - the witness carries the exception class of the drawn errno); also CAUGHT: narrow the guard to `except PermissionError` -> finish-raised:finish:OSError',
     'CAUGHT (round 4, second pass) http.py Request._cleanup/connectionLost: detach the notification list before firing (a notifyFinish() requested from inside a notification callback/errback of the same request, i.e. while the pass runs, never fires) -> notify-on-finish:requested-during-notification / notify-on-loss:requested-during-notification; first judged outside the statement, but the Deferred belongs to a request whose response finishes / connection is lost in that very pass; only requests made after the pass returned get no verdict (none are made)',
+    'CAUGHT (round 6) http.py HTTPChannel.connectionLost: tell the requests only `if self._handlingRequest` (a request that is still being received '
+    'when the connection goes away - its notifyFinish() Deferreds were requested in the constructor / gotLength() / handleContentChunk() of the '
+    "application's request class - is skipped) -> notify-on-loss:request-being-received; the workload had only asked for notifications from process() on",
+    'CAUGHT (round 6) http.py HTTPChannel.connectionLost: `for request in self.requests` -> `self.requests[:1]` / Request.connectionLost: errback only '
+    '`if self.method != b"(no method yet)"` (requests that were never completely received) -> notify-on-loss:request-being-received',
 ]
